@@ -90,6 +90,11 @@ CHECKS = {
             "of generated runs, on the in-memory and the SQLite back end",
             "Proof-level content is limited to what a row can hold and the order inside the task event. That every in-memory write is followed by a row write before the next "
             "quiescent point is a whole-program discipline decided by the image comparison on the engine, not proved. `$params` (a recomputable memo) is excluded.", "5 C11"),
+    "C12": ("Lean 4 K1 theorems over translated tables (everything the scheduler reads of a task/process is written by into_data, has a column, and is read back by "
+            "load_tasks/load_proc; nodes are re-bound by id) + run-pair monitor: the same scenario uninterrupted and with 1-5 evictions (memory store) or engine restarts on "
+            "the same SQLite file at quiescent points; action results, messages, events, creations, transitions, task data/outcomes/prev/hooks compared op by op",
+            "Observational equivalence of the continued run is decided on the engine, not proved; the theorems only rule out a field that cannot survive. Cuts are taken at "
+            "quiescent points with an empty queue; timeouts, generated acts and sub-processes are not in these workloads (C15/C16/C19 cover them without cuts).", "5 C12"),
     "C17": ("Lean 4 K3 theorems on the row model (removeProc deletes exactly the task and process rows of that pid and no message; removals commute; removal iff "
             "!keep_processes from the translated rule; actions on a removed process are refused first; rm_model removes exactly its events) + monitor on the rows of "
             "all collections after every operation of interleaved workloads, both keep settings, both back ends",
@@ -128,7 +133,7 @@ def main():
             "guard": "cargo feature `verif` of crate acts",
             "enable": "the harness crate depends on acts with features=[\"verif\"] (cargo build in /verif/harness)",
             "baseline_off_cmd": "sh /verif/tools/run_baseline.sh",
-            "source_commits": ["1285869"],
+            "source_commits": ["1285869", "e49c3f8", "18f7425", "98dee9d", "ee35ac3"],
             "add_only": True,
         },
         "engines": [{"name": "lean-proof+correspondence", "path": "tools/check.py",
